@@ -115,16 +115,25 @@ func (p *Program) Evaluate(d Decl) *Ref {
 			sup[t] = supplier{prov: i, result: ri}
 		}
 		if pr.Bind != "" {
+			// the bound result: the interface's recorded implementation if the provider
+			// returns it, else its first result (a second implementing type, declared by hand)
 			impl := "*" + p.Ifaces[pr.Bind]
+			bound := -1
 			for ri, t := range pr.Results {
 				if t == impl {
-					if _, dup := sup[pr.Bind]; dup {
-						r.Valid, r.Why = false, "duplicate supplier of "+pr.Bind
-						return r
-					}
-					sup[pr.Bind] = supplier{prov: i, result: ri}
+					bound = ri
 					break
 				}
+			}
+			if bound < 0 && len(pr.Results) > 0 {
+				bound = 0
+			}
+			if bound >= 0 {
+				if _, dup := sup[pr.Bind]; dup {
+					r.Valid, r.Why = false, "duplicate supplier of "+pr.Bind
+					return r
+				}
+				sup[pr.Bind] = supplier{prov: i, result: bound}
 			}
 		}
 	}
